@@ -40,6 +40,8 @@ pub fn cfg() -> Cfg {
     cfg.max_stub_pats = 6;
     cfg.max_history = 24;
     cfg.prefer_match = 248;
+    // a stub may contain response-less `each.call(m);` patterns: they keep their place in the scan
+    cfg.allow_empty_stub_chain = true;
     cfg
 }
 
